@@ -495,6 +495,9 @@ func scenarioPortfolio(password bool) [][]string {
 		{respCmd("GET"), respCmd("SET", "k"), respCmd("PING")},
 		{hex.EncodeToString([]byte("+PING\r\n")), respCmd("PING")},
 		{hex.EncodeToString([]byte("*0\r\n")), respCmd("PING")},
+		{respCmd("PING"), "-" + hex.EncodeToString([]byte("*x\r\n"))},
+		{respCmd("PING"), "-" + hex.EncodeToString([]byte("*2\r\n$3\r\nGET\r\n"))},
+		{respCmd("SET", "k", ""), "-" + hex.EncodeToString([]byte("*3\r\n$3\r\nSET\r\n$2\r\nk2\r\n$0"))},
 		{respCmd("STRLEN", "k"), respCmd("HLEN", "h"), respCmd("HKEYS", "h"), respCmd("QUIT")},
 		{respCmd("ZADD", "z", "NX", "1", "m"), respCmd("PING")},
 		{respCmd("SET", "k", "v", "EX", "10", "NX"), respCmd("INCR", "k"), respCmd("GETRANGE", "k", "0", "3")},
@@ -510,6 +513,10 @@ func scenarioPortfolio(password bool) [][]string {
 		{respCmd("MSETNX", "k1", "v 1\r\n"), respCmd("MSET", "a", "b"), respCmd("HMSET", "h", "f", "v")},
 		{respCmd("ZREVRANGE", "z", "0", "-1", "WITHSCORES"), respCmd("ZREVRANGEBYSCORE", "z", "3", "1", "withscores"), respCmd("ZREVRANGE", "z", "0", "-1"), respCmd("MGET", "a", "b")},
 		{respCmd("ZRANGEBYSCORE", "z", "0", "10", "LIMIT", "5"), respCmd("ZRANGE", "z", "0", "-1", "LIMIT", "abc", "5"), respCmd("ZRANGEBYSCORE", "z", "0", "10", "limit", "0", "2", "WITHSCORES"), respCmd("ZREVRANGE", "z", "0", "1", "LIMIT", "0", "x"), respCmd("PING")},
+		// only ill-formed EXPIRE requests: a well-formed one hands the handler a time derived from the clock, which no two runs share
+		{respCmd("EXPIRE", "k", "-9223372036854775807"), respCmd("EXPIRE", "k", "9223372037"), respCmd("EXPIRE", "k", "abc"), respCmd("EXPIRE", "k"), respCmd("GET", "k")},
+		{respCmd("HSET", "h", "f", ""), respCmd("HEXISTS", "h", "f"), respCmd("HSTRLEN", "h", "f"), respCmd("STRLEN", "k"), respCmd("GETSET", "k", "v")},
+		{respCmd("ZINCRBY", "z", "0.1", "m"), respCmd("ZADD", "z", "0.1", "a", "0.1", "b"), respCmd("ZINCRBY", "z", "1e300", "m")},
 		{respCmd("foo\rX+OK\rX"), respCmd("PING")},
 		{respCmd("x\r\n+OK"), respCmd("x\ny"), respCmd("CONFIG", "a\rb")},
 	}
